@@ -42,9 +42,11 @@ fn gen_entries(rng: &mut Rng) -> Vec<(OV, OV)> {
         let v = if strings {
             OV::Str(rng.pick(&["", "a", "bb", "ccc", "bb"]).as_bytes().to_vec())
         } else {
-            match rng.below(6) {
+            match rng.below(8) {
                 0 => OV::Real((rng.range(-4, 4) as f64 * 0.5).to_bits()),
                 1 => OV::Nil,
+                // integers that differ by less than one f64 ulp must still be ordered exactly
+                2 => OV::Int(*rng.pick(&[9007199254740993i64, 9007199254740992, 9007199254740994, i64::MAX, i64::MAX - 1, i64::MIN, i64::MIN + 1, -9007199254740993])),
                 _ => OV::Int(rng.range(-3, 6)),
             }
         };
